@@ -3,8 +3,9 @@
 rev=""
 if [ "$1" = "-R" ]; then rev="-R"; shift; fi
 what=$1; shift
+tag=$(echo "$what" | sed 's|/OUT/patch.diff||; s|.*/||')
 cd /repo
 if [ -f "$what" ]; then git apply $rev "$what" || exit 2; else git diff "$what~1" "$what" | git apply -R || exit 2; fi
 cd /verif
-for p in "$@"; do timeout 1200 ./check $p --tier quick --skip-proof 2>&1 | grep -E "VIOLATION|KNOWN|violation" | sed "s/^/[$what] /"; done
+for p in "$@"; do timeout 1200 ./check $p --tier quick --skip-proof 2>&1 | grep -E "VIOLATION|KNOWN|violation" | sed "s|^|[$tag] |"; done
 git -C /repo checkout -- . ; git -C /repo status --short | head -3
